@@ -33,6 +33,15 @@ func init() {
 			"dhcpv6.Server.endBinding", "dhcpv6.Server.handleRelease", "dhcpv6.Server.handleDecline",
 			"dhcpv6.Server.buildReply", "dhcpv6.Server.buildAdvertise",
 		},
+		// constructors whose byte / bit arithmetic the verifier cannot reach: bounded stand-ins on the real code
+		BoundedChecks: []BoundedCheck{
+			{ID: "dhcp.NewPool", Pkg: "github.com/codelaboratoryltd/bng/pkg/dhcp", File: "dhcp_NewPool.go",
+				Bound: "every IPv4 network /22../30 at three bases, 7 gateway positions (hosts, network, broadcast, outside), reserved ranges {0,1,3} x {0,2}: 1134 configurations",
+				Claim: "free list duplicate-free, strictly between network and broadcast address, without the gateway, exactly the hosts minus the reserved ranges"},
+			{ID: "dhcpv6.NewPrefixPool+NewAddressPool", Pkg: "github.com/codelaboratoryltd/bng/pkg/dhcpv6", File: "dhcpv6_pools.go",
+				Bound: "NewPrefixPool: 18 pool prefix lengths x 1..12 index bits; NewAddressPool: /118../128 and /64: 224 geometries",
+				Claim: "min(2^bits,1000) prefixes, pairwise different, inside the pool, mask = delegation length, prefix i = base + i<<(128-len); addresses pairwise different, inside the network, not the network address"},
+		},
 		// the byte-order postconditions of the key derivations belong to C06's claim
 		Select: notDerivedKeyEnsures,
 		Trusted: []string{
@@ -42,7 +51,7 @@ func init() {
 		},
 		Undecided: []string{
 			"NOT DECIDED (whole-history clauses): agreement between the DHCPv4 lease table (leasesMu) and the pool (Pool.mu) between the ownership check and the insertion of the lease; 'never two unexpired bindings on one address' in the lease table itself (two mutexes, check-then-act, needs a cross-lock invariant the monitor model cannot express); lease expiry and the cleanup tick (time); circuit-id based lease takeover by a different MAC; DHCPv6 lifetimes (the v6 server never expires a binding: there is no cleanup path to put under contract)",
-			"NOT DECIDED: that generated pool members lie inside the network and exclude network / broadcast / gateway (NewPool.generateAvailableIPs, NewAddressPool, NewPrefixPool establish the pool invariants; their byte arithmetic is outside the integer fragment, so the invariants are assumed to hold initially)",
+			"NOT DECIDED: that generated pool members lie inside the network and exclude network / broadcast / gateway (NewPool.generateAvailableIPs, NewAddressPool, NewPrefixPool establish the pool invariants; their byte / bit arithmetic is outside the integer fragment; NewAddressPool's in-network clause is proved, everything else about the constructors is covered only by the BOUNDED stand-ins listed under 'bounded', which are not proofs)",
 			"NOT DECIDED: Nexus-managed addressing (httpAllocator / nexusClient) and the external PoolAllocator mode of the DHCPv6 server; DHCPv6 buildAdvertise / buildReply pass the client's own DUID to the pools (call sites not under contract); INFORM, CONFIRM, RENEW, REBIND",
 			"callers are assumed not to modify the bytes of a net.IP handed out by a pool (the slices are shared)",
 		},
